@@ -4,6 +4,8 @@ package sftp_test
 
 import (
 	"bytes"
+	"context"
+	"errors"
 	"flag"
 	"fmt"
 	"io"
@@ -11,6 +13,7 @@ import (
 	"sort"
 	"strconv"
 	"sync"
+	"sync/atomic"
 	"testing"
 
 	sftp "github.com/pkg/sftp"
@@ -510,6 +513,92 @@ func vfRunC04Storm(ctx *vfCtx, c vfCaseC04Storm) {
 	vfEndSession(ctx, "C04/storm", s, baseline)
 }
 
+// ---- "late": the caller starts waiting only after the receiver has shut down ----------------
+//
+// Last clause of the statement: a reply that was received completely before the failure is still returned.
+// The reply is complete, the stream ends right behind it, and the caller - delayed between sending its
+// request and waiting for the answer, which a context whose Done method is slow does through the public API -
+// finds both the delivered reply and the finished shutdown when it looks (seed C04-h: taking the shutdown
+// for the answer throws the reply away).
+
+type vfCaseC04Late struct {
+	Opts  vfOpts
+	Code  uint32 // status the peer gives the OPENDIR
+	AsErr bool   // the stream ends in a read error instead of EOF
+}
+
+type vfLateCtx struct {
+	context.Context
+	calls   atomic.Int32
+	blockOn int32
+	gate    <-chan struct{}
+}
+
+func (c *vfLateCtx) Done() <-chan struct{} {
+	if c.calls.Add(1) == c.blockOn {
+		<-c.gate
+	}
+	return nil // never cancelled
+}
+
+func (c *vfLateCtx) Err() error { return nil }
+
+func vfRunC04Late(ctx *vfCtx, c vfCaseC04Late) {
+	baseline := vfPkgGoroutineIDs()
+	ctx.Class(fmt.Sprintf("late-code=%d", c.Code))
+	var link *vfLink
+	s, err := vfStartSession(c.Opts, func(p *vfPeer, l *vfLink) {
+		link = l
+		p.mutate = func(idx int, req *vfPkt, frame []byte) []byte {
+			if req.Type == vfFxpOpendir {
+				frame = vfEncode(vfStatus(req.ID, c.Code, "late"))
+				var e error
+				if c.AsErr {
+					e = errVfCut
+				}
+				link.S2C.CutAfterNext(len(frame), e)
+			}
+			return frame
+		}
+	})
+	if err != nil {
+		ctx.Failf("harness/handshake", "%v", err)
+	}
+	gate := make(chan struct{})
+	dW, _ := vfCall(func() (string, error) { s.c.Wait(); close(gate); return "", nil })
+	lc := &vfLateCtx{Context: context.Background(), blockOn: 1, gate: gate}
+	var got error
+	d, r := vfCall(func() (string, error) {
+		_, got = s.c.ReadDirContext(lc, "/dir")
+		return "", nil
+	})
+	if !vfAwait(ctx, d, "ReadDirContext") {
+		ctx.Failf("C04/late/hang", "ReadDirContext never returns although its reply arrived and the connection is gone\n%s", vfDumpRelevant())
+	}
+	if r.Panic != nil {
+		ctx.Failf("panic/"+vfPanicSite([]byte(r.Stack)), "%v\n%s", r.Panic, vfTrimStack([]byte(r.Stack)))
+	}
+	if !vfAwait(ctx, dW, "Client.Wait") {
+		ctx.Failf("C04/late/wait-hangs", "Client.Wait never returns after the stream ended\n%s", vfDumpRelevant())
+	}
+	desc := fmt.Sprintf("the status %d reply to OPENDIR was received completely, then the stream ended (error=%v), and only then did the caller start waiting", c.Code, c.AsErr)
+	ok := false
+	switch c.Code {
+	case vfFxNoSuchFile:
+		ok = errors.Is(got, os.ErrNotExist)
+	case vfFxPermissionDenied:
+		ok = errors.Is(got, os.ErrPermission)
+	default:
+		var se *sftp.StatusError
+		ok = errors.As(got, &se) && uint32(se.Code) == c.Code && se.Code != 7 // not CONNECTION_LOST made up by the client
+	}
+	if !ok {
+		ctx.Failf("C04/late/reply-lost", "%s: ReadDirContext returned %T %v instead of the reply it had received", desc, got, got)
+	}
+	ctx.NonTrivial()
+	vfEndSession(ctx, "C04/late", s, baseline)
+}
+
 func TestVerifC04(t *testing.T) {
 	t.Run("enum", func(t *testing.T) {
 		vfDriveSub(t, "enum", vfProp[vfCaseC04]{ID: "C04", Gen: vfGenC04, Run: vfRunC04})
@@ -522,6 +611,12 @@ func TestVerifC04(t *testing.T) {
 			flag.Set("rapid.checks", strconv.Itoa(n*15))
 		}
 		vfDriveSub(t, "storm", vfProp[vfCaseC04Storm]{ID: "C04", Gen: vfGenC04Storm, Run: vfRunC04Storm})
+	})
+	t.Run("late", func(t *testing.T) {
+		defer vfScaleChecks(1)()
+		vfDriveSub(t, "late", vfProp[vfCaseC04Late]{ID: "C04", Run: vfRunC04Late, Gen: func(rt *rapid.T) vfCaseC04Late {
+			return vfCaseC04Late{Opts: vfGenSmallOpts(rt), Code: rapid.SampledFrom([]uint32{vfFxNoSuchFile, vfFxPermissionDenied, vfFxFailure, vfFxBadMessage, vfFxOpUnsupported}).Draw(rt, "code"), AsErr: rapid.Bool().Draw(rt, "aserr")}
+		}})
 	})
 	t.Run("one", func(t *testing.T) {
 		defer vfScaleChecks(1)()
